@@ -5,7 +5,10 @@ spec: {"service_module", "client", "transport": "grpc"|"grpc_asyncio"|"rest", "m
        "request": {"cls": "pkg.types:Name", "b64": ...},
        "call_kwargs": {"timeout": 20.0, "metadata": [[k, v]], "retry": {"codes": [...]}},
        "grpc_script": {path: [reply...]}, "http_script": [reply...],
-       "mode": "items" | "pages" | "items-break" | "pages-break", "break_after": n, "item_field": name, "is_map": bool, "attr_names": [names]}
+       "mode": "items" | "pages" | "items-break" | "pages-break", "break_after": n,
+       "mutate_after_create": {field: value}  (set on the caller's request object right after the pager was returned),
+       "list_again": bool  (after draining, call the method again with the SAME request object and drain that pager too),
+       "item_field": name, "is_map": bool, "attr_names": [names]}
 Per call the result holds what the *caller* sees (items, or per-page snapshots taken through the pager's own attribute
 lookup at each yield) and what the *servers* saw (every call, raw).  Nothing here imports gapic."""
 import asyncio, inspect, json, sys, traceback
@@ -55,6 +58,8 @@ def run_sync(spec, gs, hs, pkg):
     req = D.build_message(D.resolve(spec["request"]["cls"]), spec["request"]["b64"])
     pager = getattr(client, spec["method"])(request=req, **call_kwargs(spec, False))
     out = {"type": type(pager).__name__, "before": snapshot(pager, spec)}
+    for k, v in (spec.get("mutate_after_create") or {}).items():
+        setattr(req, k, v)          # the caller goes on using ITS request object while the pager is alive
     limit = spec.get("break_after")
     if spec["mode"] in ("items", "items-break"):
         out["items"] = []
@@ -69,6 +74,11 @@ def run_sync(spec, gs, hs, pkg):
             if spec["mode"] == "pages-break" and k >= limit:
                 break
     out["final"] = snapshot(pager, spec)
+    out["caller_request_after"] = D.b64(type(req).serialize(req))
+    if spec.get("list_again"):      # the caller re-uses the same request object for a new listing
+        pager2 = getattr(client, spec["method"])(request=req, **call_kwargs(spec, False))
+        out["again"] = {"items": [D.encode_value(list(x) if isinstance(x, tuple) else x) for x in pager2], "final": snapshot(pager2, spec)}
+        out["caller_request_after_again"] = D.b64(type(req).serialize(req))
     return out
 
 
@@ -79,6 +89,8 @@ async def run_async(spec, gs, hs, pkg):
     if inspect.isawaitable(pager):
         pager = await pager
     out = {"type": type(pager).__name__, "before": snapshot(pager, spec)}
+    for k, v in (spec.get("mutate_after_create") or {}).items():
+        setattr(req, k, v)
     limit = spec.get("break_after")
     if spec["mode"] in ("items", "items-break"):
         out["items"] = []
@@ -95,6 +107,13 @@ async def run_async(spec, gs, hs, pkg):
                 break
             k += 1
     out["final"] = snapshot(pager, spec)
+    out["caller_request_after"] = D.b64(type(req).serialize(req))
+    if spec.get("list_again"):
+        pager2 = getattr(client, spec["method"])(request=req, **call_kwargs(spec, True))
+        if inspect.isawaitable(pager2):
+            pager2 = await pager2
+        out["again"] = {"items": [D.encode_value(list(x) if isinstance(x, tuple) else x) async for x in pager2], "final": snapshot(pager2, spec)}
+        out["caller_request_after_again"] = D.b64(type(req).serialize(req))
     return out
 
 
